@@ -1,0 +1,108 @@
+//! Verification hooks (cargo feature `verif`, off by default).
+//!
+//! Everything here is inert until an external harness installs a sink or a policy,
+//! so a `verif` build behaves like a plain build unless a check arms the hooks.
+
+use std::future::Future;
+use std::pin::Pin;
+use std::sync::atomic::{AtomicBool, Ordering};
+use std::sync::RwLock;
+
+pub use crate::command::ServerCommand;
+
+/// Restores the process-global allocators to what a freshly started process has,
+/// so that an in-process restart is equivalent to a new OS process.
+pub fn reset_process_globals() {
+    crate::streaming::systems::streams::verif_reset_current_stream_id();
+    crate::streaming::systems::users::verif_reset_user_id();
+    crate::streaming::cache::memory_tracker::verif_reset_used_memory();
+}
+
+type FsSink = Box<dyn Fn(&str, &str) + Send + Sync>;
+static FS_SINK_ARMED: AtomicBool = AtomicBool::new(false);
+static FS_SINK: RwLock<Option<FsSink>> = RwLock::new(None);
+
+/// Installs (or removes) the sink that receives one event per file mutation.
+pub fn set_fs_sink(sink: Option<FsSink>) {
+    let mut guard = FS_SINK.write().unwrap();
+    FS_SINK_ARMED.store(sink.is_some(), Ordering::SeqCst);
+    *guard = sink;
+}
+
+/// Called by the server right after a file mutation was issued.
+pub fn fs_event(kind: &str, path: &str) {
+    if !FS_SINK_ARMED.load(Ordering::SeqCst) {
+        return;
+    }
+    if let Some(sink) = FS_SINK.read().unwrap().as_ref() {
+        sink(kind, path);
+    }
+}
+
+/// Emits `fs_event(kind, path)` when dropped, i.e. once the enclosing operation has returned.
+pub struct FsEventOnDrop(Option<(&'static str, String)>);
+
+pub fn fs_event_on_drop(kind: &'static str, path: &str) -> FsEventOnDrop {
+    if FS_SINK_ARMED.load(Ordering::SeqCst) {
+        FsEventOnDrop(Some((kind, path.to_owned())))
+    } else {
+        FsEventOnDrop(None)
+    }
+}
+
+impl Drop for FsEventOnDrop {
+    fn drop(&mut self) {
+        if let Some((kind, path)) = self.0.take() {
+            fs_event(kind, &path);
+        }
+    }
+}
+
+type SchedFuture = Pin<Box<dyn Future<Output = ()> + Send>>;
+type SchedPolicy = Box<dyn Fn(&'static str) -> Option<SchedFuture> + Send + Sync>;
+static SCHED_ARMED: AtomicBool = AtomicBool::new(false);
+static SCHED_POLICY: RwLock<Option<SchedPolicy>> = RwLock::new(None);
+
+/// Installs (or removes) the policy consulted at schedule points.
+pub fn set_sched_policy(policy: Option<SchedPolicy>) {
+    let mut guard = SCHED_POLICY.write().unwrap();
+    SCHED_ARMED.store(policy.is_some(), Ordering::SeqCst);
+    *guard = policy;
+}
+
+/// A schedule point: a no-op unless a policy is installed, in which case the policy may
+/// return a future (a few yields or a short sleep) that is awaited here.
+pub async fn sched_point(name: &'static str) {
+    if !SCHED_ARMED.load(Ordering::SeqCst) {
+        return;
+    }
+    let future = match SCHED_POLICY.read().unwrap().as_ref() {
+        Some(policy) => policy(name),
+        None => None,
+    };
+    if let Some(future) = future {
+        future.await;
+    }
+}
+
+type FaultPolicy = Box<dyn Fn(&str, &str) -> bool + Send + Sync>;
+static FAULT_ARMED: AtomicBool = AtomicBool::new(false);
+static FAULT_POLICY: RwLock<Option<FaultPolicy>> = RwLock::new(None);
+
+/// Installs (or removes) the policy deciding whether a persister operation must fail.
+pub fn set_persister_fault_policy(policy: Option<FaultPolicy>) {
+    let mut guard = FAULT_POLICY.write().unwrap();
+    FAULT_ARMED.store(policy.is_some(), Ordering::SeqCst);
+    *guard = policy;
+}
+
+/// Returns true when the given persister operation (`append`/`overwrite`) on `path` must fail.
+pub fn persister_fault(op: &str, path: &str) -> bool {
+    if !FAULT_ARMED.load(Ordering::SeqCst) {
+        return false;
+    }
+    match FAULT_POLICY.read().unwrap().as_ref() {
+        Some(policy) => policy(op, path),
+        None => false,
+    }
+}
